@@ -296,7 +296,7 @@ def main():
 
     try:
         if prop == "C19":
-            smallscope19(2)
+            smallscope19(2 if tier == "quick" else 3)
         if prop == "C18":
             smallscope(3 if tier == "quick" else 4)
         if tier == "quick":
